@@ -324,9 +324,15 @@ R19.6 what migrate writes is loadable: yaml and koanf names agree for every conf
 	for i := 0; i < v3t.NumFields(); i++ {
 		v3koanf[v3t.Field(i).Name()] = tagName(v3t.Tag(i), "koanf")
 	}
-	v2param := mc.Type.Params.List[2].Names[0].Name
+	// the v2 level and the v3 destination are identified by their types, not by their position
+	i2, i3 := migrateParamIndex(info, mc)
+	if i2 < 0 || i3 < 0 {
+		c.Fail("R19.1", "migrateConfig|signature", r.Pos(mc.Pos()), "migrateConfig has no *V2Config and **config.Config parameters")
+		return
+	}
+	v2param := declParamName(mc, i2)
 	fcm := newFuncCanon(info, mc)
-	const v3p, v2p = "*ARG3.", "ARG2."
+	v3p, v2p := fmt.Sprintf("*ARG%d.", i3), fmt.Sprintf("ARG%d.", i2)
 	seenDirect, seenTD := map[string]bool{}, map[string]bool{}
 	funcs := pkgFuncs(cmdp)
 	isTDSetter := func(fd *ast.FuncDecl) bool { return isTemplateDataSetter(info, fd) }
@@ -511,7 +517,11 @@ func ruleMigrateRun(c *Ctx, r *Repo, cmdp *packages.Package) {
 	inRun(func(n ast.Node) bool {
 		if call, ok := n.(*ast.CallExpr); ok {
 			if fn := calleeFunc(info, call); fn != nil && fn.Name() == "migrateConfig" && len(call.Args) == 4 {
-				calls = append(calls, typeShape(info, call.Args[2])+" -> "+typeShape(info, call.Args[3]))
+				i2, i3 := migrateParamIndex(info, FuncDecl(cmdp, "migrateConfig"))
+				if i2 < 0 || i3 < 0 {
+					return true
+				}
+				calls = append(calls, typeShape(info, call.Args[i2])+" -> "+typeShape(info, call.Args[i3]))
 			}
 		}
 		return true
@@ -650,17 +660,21 @@ func ruleMigrateRun(c *Ctx, r *Repo, cmdp *packages.Package) {
 		props := schemaProperties(c, tmpl)
 		mc := FuncDecl(cmdp, "migrateConfig")
 		fcs := newFuncCanon(info, mc)
+		v3dst := "*ARG3"
+		if _, i3 := migrateParamIndex(info, mc); i3 >= 0 {
+			v3dst = fmt.Sprintf("*ARG%d", i3)
+		}
 		ast.Inspect(mc.Body, func(n ast.Node) bool {
 			if call, ok := n.(*ast.CallExpr); ok && len(call.Args) == 3 {
-				if fn := calleeFunc(info, call); fn != nil && isTemplateDataSetter(info, pkgFuncs(cmdp)[fn]) && fcs.E(call.Args[0]) == "*ARG3" {
+				if fn := calleeFunc(info, call); fn != nil && isTemplateDataSetter(info, pkgFuncs(cmdp)[fn]) && fcs.E(call.Args[0]) == v3dst {
 					key := strings.Trim(fcs.E(call.Args[1]), `"`)
 					c.Check(props[key], "R19.6", "migrateConfig|schema-key|"+key, r.Pos(call.Pos()), "template-data."+key+" is a property of the "+tmpl+" schema", fmt.Sprintf("migrate writes template-data[%q], which the %s schema (additionalProperties: false) rejects: the migrated file fails validation when mocks are generated", key, tmpl))
 				}
 			}
 			if as, ok := n.(*ast.AssignStmt); ok && len(as.Lhs) == 1 {
 				lhs := fcs.E(as.Lhs[0])
-				if strings.HasPrefix(lhs, "*ARG3.TemplateData[\"") {
-					key := strings.TrimSuffix(strings.TrimPrefix(lhs, "*ARG3.TemplateData[\""), "\"]")
+				if strings.HasPrefix(lhs, v3dst+".TemplateData[\"") {
+					key := strings.TrimSuffix(strings.TrimPrefix(lhs, v3dst+".TemplateData[\""), "\"]")
 					c.Check(props[key], "R19.6", "migrateConfig|schema-key|"+key, r.Pos(as.Pos()), "template-data."+key+" is a property of the "+tmpl+" schema", fmt.Sprintf("migrate writes template-data[%q], which the %s schema (additionalProperties: false) rejects: the migrated file fails validation when mocks are generated", key, tmpl))
 				}
 			}
@@ -705,4 +719,42 @@ func isTemplateDataSetter(info *types.Info, fd *ast.FuncDecl) bool {
 		}
 	}
 	return len(paths) > 0
+}
+
+// migrateParamIndex returns the positions of migrateConfig's *V2Config and **config.Config parameters.
+func migrateParamIndex(info *types.Info, fd *ast.FuncDecl) (v2, v3 int) {
+	v2, v3 = -1, -1
+	if fd == nil {
+		return
+	}
+	i := 0
+	for _, f := range fd.Type.Params.List {
+		n := len(f.Names)
+		if n == 0 {
+			n = 1
+		}
+		for k := 0; k < n; k++ {
+			switch shortType(info.TypeOf(f.Type)) {
+			case "*internal/cmd.V2Config":
+				v2 = i
+			case "**config.Config":
+				v3 = i
+			}
+			i++
+		}
+	}
+	return
+}
+
+func declParamName(fd *ast.FuncDecl, idx int) string {
+	i := 0
+	for _, f := range fd.Type.Params.List {
+		for _, n := range f.Names {
+			if i == idx {
+				return n.Name
+			}
+			i++
+		}
+	}
+	return ""
 }
